@@ -95,7 +95,7 @@ def parse_template(path):
                     if cur_text: chunks.append(("text", cur_text, cur_text_line)); cur_text = []
                     chunks.append(("include", rest))
                     cur_text_line = ln + 1
-                elif word in ("unit", "default-props", "note", "world-calls"):
+                elif word in ("unit", "default-props", "note", "world-calls", "unit-rewrite"):
                     chunks.append(("meta", word, rest))
                 else:
                     raise ValueError("%s:%d unknown directive %s" % (path, ln, word))
@@ -548,7 +548,15 @@ def assemble(unit, vacuity=False, outdir=None):
                 if ch[1] == "world-calls":
                     rx, text = split_regex_directive(ch[2])
                     meta.setdefault("world-calls", []).append((rx, text))
+                if ch[1] == "unit-rewrite":
+                    # a rewrite applied to every function-like item of the unit (any number of matches, also none)
+                    rx, tail = split_regex_directive(ch[2])
+                    repl = tail[2:].strip() if tail.startswith("=>") else tail
+                    if repl == "<empty>": repl = ""
+                    meta.setdefault("unit-rewrites", []).append((rx, repl))
             elif ch[0] == "item":
+                for (rx, repl) in meta.get("unit-rewrites", []):
+                    if not any(r[1] == rx for r in ch[1].rewrites): ch[1].rewrites.append((None, rx, repl, "rewrite"))
                 s, rep = build_item(ch[1], vacuity=vacuity, unit_calls=meta.get("world-calls"))
                 rep["template_line"] = ch[1].lineno
                 rep["has_spec"] = ch[1].spec is not None
